@@ -675,6 +675,24 @@ fn explained(c: &Case, obligation: &str) -> bool {
     }
 }
 
+/// The shared report keeps a limited number of failures overall. Half of this family fails on the current library (a few
+/// defect classes hit by very many inputs), so this module keeps per obligation: 2 examples with start 1
+/// (`renumber_objects`) and 2 with another start in the main family, 1 in each tagged sub-family. First found = smallest.
+fn fail_capped(rep: &mut Report, f: Failure) {
+    let tagged = f.obligation.contains('[');
+    let start1 = f.input["start"].as_u64() == Some(1);
+    let same = rep.failures.iter().filter(|g| g.obligation == f.obligation && (tagged || (g.input["start"].as_u64() == Some(1)) == start1)).count();
+    if same < if tagged { 1 } else { 2 } { rep.fail(&f.obligation, f.detail, f.input, f.observed); }
+}
+
+fn merge_capped(mut x: Report, y: Report) -> Report {
+    x.evaluations += y.evaluations;
+    x.nontrivial += y.nontrivial;
+    for f in y.failures { fail_capped(&mut x, f); }
+    for smp in y.samples { x.sample(smp); }
+    x
+}
+
 fn eval(c: &Case, rep: &mut Report) {
     let n = c.objects.len() as u64;
     let mut nums: Vec<u64> = c.objects.iter().map(|(id, _)| id.0 as u64).collect();
@@ -685,7 +703,7 @@ fn eval(c: &Case, rep: &mut Report) {
     if !fails.is_empty() {
         let input = case_json(c);
         dump_failures(c, &fails, &input);
-        for (ob, d) in fails { rep.fail(&ob, d.clone(), input.clone(), d); }
+        for (ob, d) in fails { fail_capped(rep, Failure { obligation: ob, detail: d.clone(), input: input.clone(), observed: d }); }
     }
 }
 
@@ -762,7 +780,7 @@ pub fn run(thorough: bool) -> Report {
         blocks
             .par_iter()
             .map(|b| run_block(b, &templates, &subs, &ext_subs, &starts_a))
-            .reduce(|| Report::new("", false), |mut x, y| { x.merge(y); x })
+            .reduce(|| Report::new("", false), merge_capped)
     });
 
     let mut bound = String::new();
@@ -774,8 +792,8 @@ pub fn run(thorough: bool) -> Report {
     bound.push_str(&subs.iter().map(|s| s.describe()).collect::<Vec<_>>().join(" | "));
     bound.push_str(". Extreme starts (tagged): start 0, u32::MAX-n, u32::MAX-n+1 (and 5, u32::MAX for the empty document) on all graphs of 0..2 objects (1 dangling id, trailers 0 and 3, id sets 0,1, both bookmark sets) and all page-tree templates of <= 4 objects (id sets 0,1, all permutations, all bookmark sets). ");
     bound.push_str("Structures are at most 7 objects, nesting depth <= 4, bookmark trees acyclic, so no case can hang or overflow the stack; every library call and the oracle run under catch_unwind.");
-    let mut rep = Report::new(&bound, true);
-    rep.merge(total);
+    let rep = Report::new(&bound, true);
+    let mut rep = merge_capped(rep, total);
     rep.obligations = 14;
     rep
 }
